@@ -21,7 +21,7 @@ def frameName (phase : Int) (name : String) (f : Nat) : String :=
 
 /-- rows of `SeqBag.Translate(phase, code)` (`phase ≥ −1`): every row in order, every frame in order; the
 first failing translation is an error (what it leaves behind is not modelled) -/
-def translateRows (alphabet : Nat) (phase : Int) (codeId : Int) (rows : List (String × Seq)) :
+def translateFrames (alphabet : Nat) (phase : Int) (codeId : Int) (rows : List (String × Seq)) :
     Option (List (String × Seq)) :=
   match geneticCode codeId with
   | none => none
@@ -33,7 +33,7 @@ def translateRows (alphabet : Nat) (phase : Int) (codeId : Int) (rows : List (St
 /-- `Alignment.Translate`: the rows and the cached length (length of the first row, −1 without rows) -/
 def alignTranslate (alphabet : Nat) (phase : Int) (codeId : Int) (rows : List (String × Seq)) :
     Option (List (String × Seq) × Int) :=
-  (translateRows alphabet phase codeId rows).map fun out =>
+  (translateFrames alphabet phase codeId rows).map fun out =>
     (out, match out with | [] => -1 | r :: _ => (r.2.length : Int))
 
 /-! ### CodonAlign -/
